@@ -47,7 +47,8 @@ def module_spec(draw):
     params = []
     for i in range(draw(st.integers(2, 4))):
         params.append({'name': f'p{i}', 'kind': draw(st.sampled_from(KINDS)), 'uu': draw(st.sampled_from(['default', 'default', 'always', 'never', 2.0])),
-                       'export': draw(st.sampled_from([True, True, True, False]))})
+                       'export': draw(st.sampled_from([True, True, True, False])),
+                       'callback': draw(st.sampled_from([None, None, None, 'fails-on-error', 'fails-always']))})
     return {'params': params, 'omit': draw(st.sampled_from([None, 0, 0.1, 5])), 'general_omit': draw(st.sampled_from([0, 0.1, 1]))}
 
 
@@ -131,7 +132,16 @@ def build(spec, clock, script, yielding=False):
     assert not kit.errors, kit.errors
     conn = Conn(yielding)
     kit.dispatcher.handle_request(conn, ('activate', None, None))
-    return kit, kit.modules['u'], conn
+    mobj = kit.modules['u']
+    for p in spec['params']:
+        # callbacks of other modules (addCallback / registerCallbacks) which fail: on errors only (an update_<p>(value) method
+        # without error argument, the documented "nothing happens" case), or always
+        how = p.get('callback')
+        if how == 'fails-on-error':
+            mobj.addCallback(p['name'], lambda value: None)
+        elif how == 'fails-always':
+            mobj.addCallback(p['name'], lambda *args: 1 / 0)
+    return kit, mobj, conn
 
 
 def errkey(e):
